@@ -749,6 +749,8 @@ class World:
             raise
         except SimProcessExit as err:
             raise MasterDied(where, err)
+        except simkit.HarnessError:
+            raise                     # the simulator's own problem: exit 2
         except Exception as err:  # pylint: disable=broad-except
             tb = traceback.extract_tb(err.__traceback__)
             raise MasterDied('%s@%s:%s' % (where, tb[-1].name, tb[-1].line),
